@@ -162,8 +162,14 @@ func GenTable(t *rapid.T, o TableOpts, label string) Table {
 			n = rapid.IntRange(41, o.MaxRows).Draw(t, label+".nrowsL")
 		}
 	}
-	if o.PreferLarge && o.MaxRows > 256 && rapid.Bool().Draw(t, label+".preferLarge") {
-		n = rapid.IntRange(256, o.MaxRows).Draw(t, label+".nrowsPL")
+	if o.PreferLarge && o.MaxRows > 256 && rapid.IntRange(0, 1).Draw(t, label+".preferLarge") == 0 {
+		cands := []int{}
+		for _, b := range []int{600, 511, 765, 300, 1020, 510, 400, 256, 520, 800, 1100} {
+			if b <= o.MaxRows {
+				cands = append(cands, b)
+			}
+		}
+		n = rapid.SampledFrom(cands).Draw(t, label+".nrowsPL")
 	}
 	// key range relative to n decides how many duplicates there are
 	keyRange := n*4 + 4
@@ -175,7 +181,8 @@ func GenTable(t *rapid.T, o TableOpts, label string) Table {
 		keyRange = n + 1
 	}
 	if o.ForceUnique {
-		keyRange = n*4 + 4
+		// random key draws are biased towards small values (many collisions): visit every key once
+		dupMode = 3
 	}
 	// mode 3: every key once, visited with a stride (so sorted runs interleave), plus sprinkled
 	// duplicates of other rows' keys - keeps the number of distinct keys close to n
